@@ -1,8 +1,9 @@
 """C08 — the table manager's log records exactly what was played, independently of thread timing."""
 TITLE = "The table manager's log records exactly what was played"
-LEAN_TARGETS = ['BridgeVerif.Props.C08', 'BridgeVerif.Translated.ThreadsMainA', 'BridgeVerif.Translated.ThreadsMainB']
-AUDIT_PROPS = ['C08', 'Translated.ThreadsMainA', 'Translated.ThreadsMainB']
-REQUIRED = ['Translated.ThreadsMainB.main_trick_card_translated', 'Translated.ThreadsMainB.main_trick_translated', 'Translated.ThreadsMainB.main_playing_translated', 
+LEAN_TARGETS = ['BridgeVerif.Props.C08', 'BridgeVerif.Translated.ThreadsMainA', 'BridgeVerif.Translated.ThreadsMainB', 'BridgeVerif.Translated.ThreadsMainC']
+AUDIT_PROPS = ['C08', 'Translated.ThreadsMainA', 'Translated.ThreadsMainB', 'Translated.ThreadsMainC']
+REQUIRED = ['Translated.ThreadsMainC.main_deal_translated_dict', 'Translated.ThreadsMainC.main_board_translated', 'Translated.ThreadsMainC.main_boards_translated', 'Translated.ThreadsMainC.main_run_translated', 
+            'Translated.ThreadsMainB.main_trick_card_translated', 'Translated.ThreadsMainB.main_trick_translated', 'Translated.ThreadsMainB.main_playing_translated', 
             'log_is_session_spec', 'log_independent_of_schedule', 'scores_are_opposite', 'passed_out_record_shape',
             'deal_logged_is_original', 'record_follows_rules', 'main_thread_follows_the_messages',
             'Translated.ThreadsMainA.main_sync_event_translated', 'Translated.ThreadsMainA.main_deal_translated',
